@@ -332,7 +332,14 @@ def req_guard(ctx, rule="R-REQ-GUARD", rule_fan="R-REQ-FANOUT"):
         dec = None
         if cbs:
             dec = cbs[0][1].value[2][2] if len(cbs[0][1].value[2]) == 3 else None
+        decoded = _decoded_pgn(ctx, f)
         claimlit = [(g, p) for g, p in lits(r.guards(i)) if g[0] == "cmp" and g[1] == "==" and ("c", 0xEE00) in (g[2], g[3])]
+        loose = [g for g, p in claimlit if decoded is not None and decoded not in (g[2], g[3])]
+        if loose:
+            ctx.violated(rule_fan, f, "claim-answer test compares the whole requested PGN", "the address-claim branch is selected by %s, not by "
+                         "requested PGN == 0xEE00: other PGNs are answered with a claim and never reach the callbacks" % pretty(loose[0])[:100],
+                         (cbs or ans)[0][1].node)
+            continue
         if ans:
             inst = "_process_request: address-claim request answered from the held address, no callbacks"
             if cbs:
@@ -490,25 +497,7 @@ def subscriber_rule(ctx, rule="R-SUBSCRIBER-RULE"):
         ctx.holds(rule, "ControllerApplication.subscribe registers message_acceptable as the listener's predicate")
     else:
         ctx.violated(rule, g, "ControllerApplication.subscribe predicate", "CA listeners are not bound to the CA's own acceptance predicate", g.node)
-    # message_acceptable formula
-    m = P.func(CA, "message_acceptable")
-    d2 = ("p", "dest_address")
-    normal = mk_cmp("==", STATE_F, ("c", st["NORMAL"]))
-    wants = [mk_bool("and", [normal, mk_bool("or", [mk_cmp("==", d2, GLOBAL), mk_cmp("==", x, d2)])])
-             for x in (field("device_address"), ADDR_F)]
-    parts = []
-    for r in runs(ctx, m):
-        ret = [e for _, e in r.effects() if e.kind == "ret"]
-        if not ret:
-            continue
-        v = inline_props(ctx, m, ret[-1].value)
-        parts.append(mk_bool("and", [G.conj(iguards(ctx, m, r)), v]))
-    F = G.disj(parts)
-    inst = "message_acceptable <=> state == NORMAL and (dest == GLOBAL or held address == dest)"
-    if any(G.equivalent(F, w)[0] for w in wants):
-        ctx.holds(rule, inst)
-    else:
-        ctx.violated(rule, m, inst, "acceptance condition is %s; counterexample %s" % (pretty(F)[:120], G.equivalent(F, wants[0])[1]), m.node)
+    message_acceptable_rule(ctx, rule)
     # ECU-level address listeners
     a = P.func("ElectronicControlUnit", "_is_message_acceptable")
     ok = False
@@ -695,3 +684,52 @@ def claim_timer(ctx, rule="R-CLAIM-TIMER"):
                 # complementary range: checked through the WAIT_VETO branch being exactly [128,247]
     if n < 4:
         ctx.unknown(rule, "claim timer paths not found (%d)" % n)
+
+
+def message_acceptable_rule(ctx, rule="R-SUBSCRIBER-RULE"):
+    """message_acceptable <=> state == NORMAL and (dest == GLOBAL or held address == dest)"""
+    P = ctx.prog
+    st = ca_consts(ctx)
+    m = P.func(CA, "message_acceptable")
+    d2 = ("p", "dest_address")
+    normal = mk_cmp("==", STATE_F, ("c", st["NORMAL"]))
+    wants = [mk_bool("and", [normal, mk_bool("or", [mk_cmp("==", d2, GLOBAL), mk_cmp("==", x, d2)])])
+             for x in (field("device_address"), ADDR_F)]
+    parts = []
+    for r in runs(ctx, m):
+        ret = [e for _, e in r.effects() if e.kind == "ret"]
+        if not ret:
+            continue
+        v = inline_props(ctx, m, ret[-1].value)
+        parts.append(mk_bool("and", [G.conj(iguards(ctx, m, r)), v]))
+    F = G.disj(parts)
+    inst = "message_acceptable <=> state == NORMAL and (dest == GLOBAL or held address == dest)"
+    if any(G.equivalent(F, w)[0] for w in wants):
+        ctx.holds(rule, inst)
+    else:
+        ctx.violated(rule, m, inst, "acceptance condition is %s; counterexample %s" % (pretty(F)[:120], G.equivalent(F, wants[0])[1]), m.node)
+
+
+def lose_order(ctx, rule="R-LOSE-ORDER"):
+    """on every path that releases the held address, the non-operational state is stored before any frame is sent
+    (otherwise the send guards still see NORMAL - with the null address - while the claim frame is on its way)"""
+    P = ctx.prog
+    st = ca_consts(ctx)
+    f = P.func(CA, "_process_addressclaim")
+    n = 0
+    for r in runs(ctx, f):
+        clears = [i for i, e in r.effects() if e.kind == "store" and e.target == ADDR_F and e.value in (NULL, ("c", None))]
+        if not clears:
+            continue
+        n += 1
+        sends = [i for i, e in r.effects() if e.kind == "call" and e.value[1] == ("attr", SELF, "_send_address_claimed")]
+        states = [(i, e) for i, e in r.effects() if e.kind == "store" and e.target == STATE_F and e.value != ("c", st["NORMAL"])]
+        lab = "CANNOT_CLAIM" if any(e.value == ("c", st["CANNOT_CLAIM"]) for _, e in states) else "re-claim"
+        inst = "losing path (%s): state leaves NORMAL before the claim frame is sent" % lab
+        if sends and (not states or states[0][0] > sends[0]):
+            ctx.violated(rule, f, inst, "the address is released and a frame is sent while the state is still NORMAL: an application send that "
+                         "interleaves goes out from the null address instead of raising", r.recs[sends[0]].ev.node)
+        else:
+            ctx.holds(rule, inst)
+    if n < 2:
+        ctx.unknown(rule, "losing paths not found (%d)" % n)
